@@ -292,11 +292,12 @@ Section Proofs.
   Variable marshal : S -> N -> B.
   Variable unmarshal : B -> option (S * N).
   Variable exp_of : S -> N.
+  Variable rev_of : S -> N.
 
   (* C03 provides this for the IRC server (round trip of Marshal/Unmarshal) *)
   Hypothesis roundtrip : forall s k, unmarshal (marshal s k) = Some (s, k).
-  (* only a Config message changes Config.SessionExpiration *)
-  Hypothesis exp_frame : forall s e, sets_exp e = false -> exp_of (fst (apply s e)) = exp_of s.
+  (* only a Config message that parses and follows the revision in force changes Config.SessionExpiration *)
+  Hypothesis exp_frame : forall s e, sets_exp (rev_of s) e = false -> exp_of (fst (apply s e)) = exp_of s.
   (* config.DefaultConfig.SessionExpiration is the 10 minutes Snapshot assumes when the FSM copy is 0 *)
   Hypothesis exp_init : eff_exp (exp_of init) = ten_minutes.
   (* the tree carries the D3 and D15 repairs (D18: either repaired or excluded by schedule_ok) *)
@@ -306,10 +307,10 @@ Section Proofs.
 
   Notation rs := (run_state S O apply).
   Notation ro := (run_out S O apply).
-  Notation ae := (apply_entry S O B apply exp_of).
-  Notation snapf := (fsm_snapshot S O B init apply marshal unmarshal exp_of).
-  Notation restf := (fsm_restore S O B apply unmarshal exp_of).
-  Notation stepf := (do_step S O B init apply marshal unmarshal exp_of).
+  Notation ae := (apply_entry S O B apply exp_of rev_of).
+  Notation snapf := (fsm_snapshot S O B init apply marshal unmarshal exp_of rev_of).
+  Notation restf := (fsm_restore S O B apply unmarshal exp_of rev_of).
+  Notation stepf := (do_step S O B init apply marshal unmarshal exp_of rev_of).
   Notation Fsm := (fsm S O B).
   Notation World := (world S O B).
 
@@ -355,7 +356,7 @@ Section Proofs.
     Forall (fun kv => fst kv < e_idx e) irc -> Forall (fun kv => fst kv < e_idx e) out ->
     ae (mkFsm S O B irc out m d s) e =
     mkFsm S O B (irc ++ [(e_idx e, e)]) (out ++ ro s [e]) m
-          (if sets_exp e then exp_of (fst (apply s e)) else d) (fst (apply s e)).
+          (if sets_exp (rev_of s) e then exp_of (fst (apply s e)) else d) (fst (apply s e)).
   Proof.
     intros irc out m d s e Hk Hi Ho. unfold apply_entry. rewrite Hk. cbn [server ircstore outstore lss expdur run_out].
     destruct (apply s e) as [s' o]. cbn [fst]. rewrite (put_snoc _ _ _ Hi). destruct o.
@@ -380,17 +381,17 @@ Section Proofs.
         by (rewrite ents_store_app; reflexivity).
       replace (ro s0 a ++ ro (rs s0 a) [e]) with (ro s0 (a ++ [e])) by (rewrite ro_app; reflexivity).
       rewrite Happ.
-      destruct (IH (a ++ [e]) m (if sets_exp e then exp_of (rs s0 (a ++ [e])) else d) s0) as (d' & Hfold & Hexp).
+      destruct (IH (a ++ [e]) m (if sets_exp (rev_of (rs s0 a)) e then exp_of (rs s0 (a ++ [e])) else d) s0) as (d' & Hfold & Hexp).
       + intros x Hx. apply Hk. right. exact Hx.
       + rewrite <- Happ. exact Hs.
       + exists d'. split; [exact Hfold|]. intros Hd. apply Hexp.
-        destruct (sets_exp e) eqn:He; [reflexivity|].
+        destruct (sets_exp (rev_of (rs s0 a)) e) eqn:He; [reflexivity|].
         rewrite <- Hrs. rewrite exp_frame; [exact Hd|exact He].
   Qed.
 
   (* ---- the fold loop of Snapshot (repaired variants) -------------------------------- *)
   Lemma snap_loop_spec : forall hz l s d, sorted l ->
-    snap_loop S O apply exp_of vr hz (ents_store l) (mkLoop S O s (ents_store l) (ro s l) d) =
+    snap_loop S O apply exp_of rev_of vr hz (ents_store l) (mkLoop S O s (ents_store l) (ro s l) d) =
     (mkLoop S O (rs s (old_prefix hz l)) (ents_store (new_suffix hz l))
             (ro (rs s (old_prefix hz l)) (new_suffix hz l)) d,
      match new_suffix hz l with [] => None | e :: _ => Some (e_idx e) end).
@@ -588,7 +589,7 @@ Section Proofs.
       + rewrite Hhi', ents_store_app. reflexivity.
       + rewrite Hhi', Hlo', ro_app, <- Hsrv2. reflexivity.
       + rewrite Hfn, cmds_app, cmds_single, Hk, rs_app, <- Hsrv. reflexivity.
-      + destruct (sets_exp e) eqn:He; [reflexivity|]. rewrite exp_frame; [exact Hexp|exact He].
+      + destruct (sets_exp (rev_of s) e) eqn:He; [reflexivity|]. rewrite exp_frame; [exact Hexp|exact He].
       + exact Hlss.
       + exact Hbase.
       + exact Hbnd'.
@@ -817,9 +818,9 @@ Section Proofs.
 
   (* raft keeps applying between Snapshot() and Persist(): the invariant (same cut) is kept, the applied prefix grows *)
   Lemma apply_n_inv : forall k L w base, log_ok L -> Inv L w base ->
-    Inv L (apply_n S O B apply exp_of L k w) base /\
-    w_persisted (apply_n S O B apply exp_of L k w) = w_persisted w /\
-    exists extra, firstn (w_applied (apply_n S O B apply exp_of L k w)) L = firstn (w_applied w) L ++ extra /\
+    Inv L (apply_n S O B apply exp_of rev_of L k w) base /\
+    w_persisted (apply_n S O B apply exp_of rev_of L k w) = w_persisted w /\
+    exists extra, firstn (w_applied (apply_n S O B apply exp_of rev_of L k w)) L = firstn (w_applied w) L ++ extra /\
                   (forall e, In e extra -> In e (skipn (w_applied w) L)).
   Proof.
     induction k as [|k IH]; intros L w base HL HI.
@@ -839,7 +840,7 @@ Section Proofs.
      message and the retained entries firstIndex..lastIndex as they were when Snapshot() ran *)
   Lemma persist_late : forall L w base t f' sn k, log_ok L -> Inv L w base ->
     snapf vr t (w_fsm w) = Some (f', sn) ->
-    persist S O B (w_fsm (apply_n S O B apply exp_of L k (mkWorld S O B f' (w_applied w) (w_persisted w)))) sn (w_applied w) =
+    persist S O B (w_fsm (apply_n S O B apply exp_of rev_of L k (mkWorld S O B f' (w_applied w) (w_persisted w)))) sn (w_applied w) =
     persist S O B f' sn (w_applied w).
   Proof.
     intros L w base t f' sn k HL HI Hsn.
@@ -867,7 +868,7 @@ Section Proofs.
       + destruct (snapshot_inv L w base t f' sn HL HI Hsn) as (base' & HI' & Hp & _).
         destruct (apply_n_inv k L _ base' HL HI') as (HI2 & Hps & _).
         rewrite (persist_late L w base t f' sn k HL HI Hsn).
-        destruct (apply_n S O B apply exp_of L k (mkWorld S O B f' (w_applied w) (w_persisted w))) as [f2 n2 ps2] eqn:Hw2.
+        destruct (apply_n S O B apply exp_of rev_of L k (mkWorld S O B f' (w_applied w) (w_persisted w))) as [f2 n2 ps2] eqn:Hw2.
         cbn [w_fsm w_applied w_persisted] in *. subst ps2.
         exists base'. destruct ok; [apply inv_add_pers; assumption|exact HI2].
       + exists base. exact HI.
@@ -889,8 +890,8 @@ Section Proofs.
   Qed.
 
   Lemma run_inv : forall L sigma w base, log_ok L -> Inv L w base ->
-    schedule_ok S O B init apply marshal unmarshal exp_of vr L sigma w ->
-    exists base', Inv L (run S O B init apply marshal unmarshal exp_of vr L sigma w) base'.
+    schedule_ok S O B init apply marshal unmarshal exp_of rev_of vr L sigma w ->
+    exists base', Inv L (run S O B init apply marshal unmarshal exp_of rev_of vr L sigma w) base'.
   Proof.
     intros L sigma. induction sigma as [|st sigma IH]; intros w base HL HI Hok.
     - exists base. exact HI.
@@ -900,8 +901,8 @@ Section Proofs.
   Qed.
 
   Lemma reach_inv : forall L sigma, log_ok L ->
-    schedule_ok S O B init apply marshal unmarshal exp_of vr L sigma (world0 S O B init) ->
-    exists base, Inv L (run S O B init apply marshal unmarshal exp_of vr L sigma (world0 S O B init)) base.
+    schedule_ok S O B init apply marshal unmarshal exp_of rev_of vr L sigma (world0 S O B init) ->
+    exists base, Inv L (run S O B init apply marshal unmarshal exp_of rev_of vr L sigma (world0 S O B init)) base.
   Proof. intros L sigma HL Hok. apply (run_inv L sigma _ 0 HL (init_inv L HL) Hok). Qed.
 
   (* ---- the C02 statements ------------------------------------------------------------- *)
@@ -922,9 +923,9 @@ Section Proofs.
   End GetFacts.
 
   Definition reached (L : list entry) (sigma : list step) : World :=
-    run S O B init apply marshal unmarshal exp_of vr L sigma (world0 S O B init).
+    run S O B init apply marshal unmarshal exp_of rev_of vr L sigma (world0 S O B init).
   Definition valid (L : list entry) (sigma : list step) : Prop :=
-    schedule_ok S O B init apply marshal unmarshal exp_of vr L sigma (world0 S O B init).
+    schedule_ok S O B init apply marshal unmarshal exp_of rev_of vr L sigma (world0 S O B init).
 
   Theorem fsm_state : forall L sigma, log_ok L -> valid L sigma ->
     server (w_fsm (reached L sigma)) = replay S O init apply (firstn (w_applied (reached L sigma)) L).
@@ -1018,7 +1019,7 @@ Section Proofs.
   Theorem fsm_persist_late : forall L sigma, log_ok L -> valid L sigma ->
     let w := reached L sigma in
     forall t k f' sn, snapf vr t (w_fsm w) = Some (f', sn) ->
-    persist S O B (w_fsm (apply_n S O B apply exp_of L k (mkWorld S O B f' (w_applied w) (w_persisted w)))) sn (w_applied w) =
+    persist S O B (w_fsm (apply_n S O B apply exp_of rev_of L k (mkWorld S O B f' (w_applied w) (w_persisted w)))) sn (w_applied w) =
     persist S O B f' sn (w_applied w).
   Proof.
     intros L sigma HL Hok w t k f' sn Hsn. destruct (reach_inv L sigma HL Hok) as (base & HI).
@@ -1031,35 +1032,32 @@ End Proofs.
 (* ================================================================================== *)
 From RV Require Import Fsm.FsmDriver.
 
-Lemma d_exp_of_aux_snoc : forall s e acc,
-  d_exp_of_aux (s ++ [e]) acc =
-  if sets_exp e then match e_exp e with Some d => d | None => d_exp_of_aux s acc end else d_exp_of_aux s acc.
-Proof.
-  induction s as [|a s IH]; intros e acc.
-  - cbn [app d_exp_of_aux]. destruct (sets_exp e); [destruct (e_exp e)|]; reflexivity.
-  - cbn [app d_exp_of_aux]. apply IH.
-Qed.
+Lemma d_cfg_of_snoc : forall s e, d_cfg_of (s ++ [e]) = d_cfg_step (d_cfg_of s) e.
+Proof. intros s e. unfold d_cfg_of. rewrite fold_left_app. reflexivity. Qed.
 
 Lemma d_roundtrip : forall s k, d_unmarshal (d_marshal s k) = Some (s, k).
 Proof. reflexivity. Qed.
-Lemma d_exp_frame : forall s e, sets_exp e = false -> d_exp_of (fst (d_apply s e)) = d_exp_of s.
-Proof. intros s e H. unfold d_exp_of, d_apply. cbn [fst]. rewrite d_exp_of_aux_snoc, H. reflexivity. Qed.
+Lemma d_exp_frame : forall s e, sets_exp (d_rev_of s) e = false -> d_exp_of (fst (d_apply s e)) = d_exp_of s.
+Proof.
+  intros s e H. unfold d_exp_of, d_apply. cbn [fst]. rewrite d_cfg_of_snoc. unfold d_cfg_step.
+  unfold d_rev_of in H. rewrite H. reflexivity.
+Qed.
 Lemma d_exp_init : eff_exp (d_exp_of d_init) = ten_minutes.
 Proof. reflexivity. Qed.
 
 Definition d_valid (v : variant) (L : list entry) (sigma : list step) : Prop :=
-  schedule_ok dS dO dB d_init d_apply d_marshal d_unmarshal d_exp_of v L sigma (world0 dS dO dB d_init).
+  schedule_ok dS dO dB d_init d_apply d_marshal d_unmarshal d_exp_of d_rev_of v L sigma (world0 dS dO dB d_init).
 Definition d_valid_raft (v : variant) (L : list entry) (sigma : list step) : Prop :=
-  schedule_ok_raft dS dO dB d_init d_apply d_marshal d_unmarshal d_exp_of v L sigma (world0 dS dO dB d_init).
+  schedule_ok_raft dS dO dB d_init d_apply d_marshal d_unmarshal d_exp_of d_rev_of v L sigma (world0 dS dO dB d_init).
 Definition d_run (v : variant) (L : list entry) (sigma : list step) : dworld :=
-  run dS dO dB d_init d_apply d_marshal d_unmarshal d_exp_of v L sigma (world0 dS dO dB d_init).
+  run dS dO dB d_init d_apply d_marshal d_unmarshal d_exp_of d_rev_of v L sigma (world0 dS dO dB d_init).
 Definition d_replay (l : list entry) : dS := replay dS dO d_init d_apply l.
 
 Local Open Scope Z_scope.
 Definition minute : Z := 60000000000.
-Definition cmd (i : N) (ts : Z) : entry := mkEntry i ts KCmd None EmptyString.
-Definition cfg (i : N) (ts : Z) (d : N) : entry := mkEntry i ts KCmd (Some d) EmptyString.
-Definition noop (i : N) : entry := mkEntry i 0 KInternal None EmptyString.
+Definition cmd (i : N) (ts : Z) : entry := mkEntry i ts KCmd None 0%N EmptyString.
+Definition cfg (i : N) (ts : Z) (d : N) (r : N) : entry := mkEntry i ts KCmd (Some d) r EmptyString.
+Definition noop (i : N) : entry := mkEntry i 0 KInternal None 0%N EmptyString.
 
 Ltac solve_valid :=
   vm_compute; repeat split; try discriminate;
@@ -1100,7 +1098,7 @@ Qed.
 
 (* a schedule with index gaps, a failed Persist, Restore on the live FSM and a restart *)
 Definition mix_log : list entry :=
-  [noop 1; cmd 2 2; cfg 3 3 (30 * 60000000000)%N; noop 4; cmd 5 5; cmd 6 (100 * minute); noop 7; cmd 8 (101 * minute)].
+  [noop 1; cmd 2 2; cfg 3 3 (30 * 60000000000)%N 1%N; noop 4; cmd 5 5; cmd 6 (100 * minute); noop 7; cmd 8 (101 * minute)].
 Definition mix_sched : list step :=
   [SApply 0; SApply 1; SApply 2; SApply 3; SApply 4; SApply 5; SSnapshot (100 * minute + 30 * minute) 0 false;
    SApply 6; SSnapshot (100 * minute + 30 * minute) 0 true; SApply 7; SRestore; SApply 7;
@@ -1117,7 +1115,7 @@ Qed.
 (* D15 witness: Config 30 min is folded, restart + Restore, then Snapshot: the pinned FSM uses the
    10-minute default and folds entries that are newer than the configured horizon *)
 Definition d15_log : list entry :=
-  [cfg 1 1 (30 * 60000000000)%N; cmd 2 2; cmd 3 3; cmd 4 4; cmd 5 (100 * minute); cmd 6 (101 * minute)].
+  [cfg 1 1 (30 * 60000000000)%N 1%N; cmd 2 2; cmd 3 3; cmd 4 4; cmd 5 (100 * minute); cmd 6 (101 * minute)].
 Definition d15_sched : list step :=
   [SApply 0; SApply 1; SApply 2; SApply 3; SApply 4; SApply 5; SSnapshot (120 * minute) 0 true; SRestart].
 Definition d15_t : Z := 116 * minute.
@@ -1126,7 +1124,7 @@ Theorem refuted_pinned_d15 : exists L sigma t e r f' sn, log_ok L /\ d_valid pin
   let w := d_run pinned L sigma in
   ircstore (w_fsm w) = (e_idx e, e) :: r /\
   (t - (eff_exp (d_exp_of (server (w_fsm w))) + expire_interval) < e_ts e) /\
-  fsm_snapshot dS dO dB d_init d_apply d_marshal d_unmarshal d_exp_of pinned t (w_fsm w) = Some (f', sn) /\
+  fsm_snapshot dS dO dB d_init d_apply d_marshal d_unmarshal d_exp_of d_rev_of pinned t (w_fsm w) = Some (f', sn) /\
   ircstore f' = [].
 Proof.
   exists d15_log, d15_sched, d15_t, (cmd 5 (100 * minute)), [(6%N, cmd 6 (101 * minute))].
@@ -1138,7 +1136,7 @@ Qed.
 
 (* D15b: folding an old Config message into the temporary server overwrites the FSM's copy *)
 Definition d15b_log : list entry :=
-  [cfg 1 1 (5 * 60000000000)%N; cmd 2 2; cmd 3 3; cmd 4 4; cfg 5 (100 * minute) (30 * 60000000000)%N; cmd 6 (101 * minute)].
+  [cfg 1 1 (5 * 60000000000)%N 1%N; cmd 2 2; cmd 3 3; cmd 4 4; cfg 5 (100 * minute) (30 * 60000000000)%N 2%N; cmd 6 (101 * minute)].
 Definition d15b_sched : list step :=
   [SApply 0; SApply 1; SApply 2; SApply 3; SApply 4; SApply 5; SSnapshot (120 * minute) 0 true].
 Theorem refuted_pinned_d15b : exists L sigma, log_ok L /\ d_valid pinned L sigma /\
@@ -1181,3 +1179,21 @@ Proof.
   split; [solve_log_ok|]. split; [solve_valid|].
   split; [vm_compute; reflexivity|]. split; vm_compute; reflexivity.
 Qed.
+
+(* Config messages that do not follow the revision in force (duplicate, future, stale) change neither the
+   configuration nor the compaction horizon — live, folded into a snapshot, or after a restart *)
+Definition rev_log : list entry :=
+  [cfg 1 1 (30 * 60000000000)%N 1%N; cmd 2 2; cfg 3 3 (5 * 60000000000)%N 1%N; cfg 4 4 (5 * 60000000000)%N 3%N;
+   cfg 5 5 (5 * 60000000000)%N 0%N; cmd 6 (100 * minute); cfg 7 (101 * minute) (5 * 60000000000)%N 4%N; cmd 8 (102 * minute)].
+Definition rev_sched : list step :=
+  [SApply 0; SApply 1; SApply 2; SApply 3; SApply 4; SApply 5; SApply 6; SApply 7; SSnapshot (120 * minute) 0 true; SRestart;
+   SSnapshot (125 * minute) 0 true].
+Example rev_ok : log_ok rev_log /\ d_valid repaired rev_log rev_sched /\
+  let w := d_run repaired rev_log rev_sched in
+  server (w_fsm w) = d_replay rev_log /\ d_rev_of (server (w_fsm w)) = 1%N /\
+  expdur (w_fsm w) = (30 * 60000000000)%N /\ map fst (ircstore (w_fsm w)) = [6%N; 7%N; 8%N].
+Proof.
+  split; [solve_log_ok|]. split; [solve_valid|]. cbv zeta.
+  split; [vm_compute; reflexivity|]. split; [vm_compute; reflexivity|]. split; vm_compute; reflexivity.
+Qed.
+
